@@ -9,7 +9,7 @@ import z3
 
 from vf.sym import cell as C
 from vf.sym import pdshim
-from vf.sym.cell import Cell, Unmodelled, lit, null_cell, decide, FALSE
+from vf.sym.cell import Cell, Unmodelled, lit, null_cell, decide, FALSE, zor
 from vf.sym import load
 
 
@@ -140,6 +140,8 @@ class _FakeConn:
 
 def _scalar_isinf(x):
     if isinstance(x, NumProxy):
+        if C.INF_ON[0] and not x.isint:
+            return C.B(zor(x.t == C.PINF, x.t == C.NINF))
         return False
     return math.isinf(x)
 
